@@ -16,7 +16,8 @@ import (
 // C10: reverse URL building substitutes parameters exactly and inverts matching.
 
 type urlExpect struct {
-	err bool
+	skip bool // the property does not determine the result
+	err  bool
 	out string
 	why string
 }
@@ -28,7 +29,11 @@ func refURL(s *Sys, domain string, strict bool, pattern string, params map[strin
 	}
 	if !strict {
 		if len(params) == 0 {
-			return urlExpect{out: domain + pattern, why: "empty params: verbatim"}
+			// the statement speaks about non-empty params; with empty params only a literal-only, well-formed pattern is judged
+			if pp, cls := ref.Parse(pattern, nil); cls != ref.SynOK || pp.HasParams() {
+				return urlExpect{skip: true}
+			}
+			return urlExpect{out: domain + pattern, why: "no parameters to substitute"}
 		}
 		pp, cls := ref.Parse(pattern, nil) // non-strict: every rule is just a regexp that has to compile
 		if cls != ref.SynOK {
@@ -135,6 +140,10 @@ func runC10(c *Ctx) {
 			ic = ics.Funcs
 		}
 		e := refURL(s, dom, strict, pattern, params, ic)
+		if e.skip {
+			c.Class("unjudged_nonstrict_empty_params")
+			return
+		}
 		if c.WantSample("url") && strict && len(params) > 0 {
 			c.Sample("url", map[string]any{"call": label, "strict": strict, "pattern": pattern, "params": fmtParams(params), "result": got, "error": fmt.Sprint(err), "model": e.why, "live": s.LivePatterns()})
 		}
@@ -306,7 +315,7 @@ func c10Directed() []Directed {
 				c.Violate(fmt.Sprintf("mux.URL of a pattern whose literal text after a regexp parameter is not valid UTF-8: %q, %v", got, err), nil)
 			}
 		}},
-		mk("nonstrict-verbatim", noneIC, nil, false, "/x/{id}", nil, false, "/x/{id}"),
+		mk("nonstrict-literal-only", noneIC, nil, false, "/x/y", nil, false, "/x/y"),
 		mk("nonstrict-ignore-flag", noneIC, nil, false, "/x/{-id}/y", map[string]string{"id": "9"}, false, "/x/9/y"),
 	}
 }
